@@ -28,7 +28,7 @@ TECHNIQUE = "Lean 4 proof (induction over the offset loop / the byte list) + dif
 ASSUMPTIONS = [
     "IEEE-754 binary64 round-to-nearest-even for int/int true division, float +, - (CPython floats); modelled exactly as fixed point in units of 2^-52 (file size < 2^971)",
     "file objects behave like a byte array with a position (seek/tell/read), as io.BytesIO and local files do",
-    "UTF-8 is self-synchronising: splitting the bytes at an encoded delimiter equals splitting the decoded text",
+    "the file is valid UTF-8 and read with encoding='utf-8' (self-synchronisation is PROVED for the Lean encoder `encode`, which is diffed against str.encode on every run); other encodings are validated only",
 ]
 TRUSTED = ["fsspec.utils.seek_delimiter/read_block re-implemented in Lean and diffed against fsspec on every run",
            "CPython str.split / bytes.index / io.StringIO(newline=None) as reference semantics"]
@@ -701,5 +701,6 @@ LEVEL_TEXT = (
     "Validated only: other encodings (ASCII-transparent ones pass; utf-16/32 with a blocksize = known finding), compression. File sizes < 2^53.")
 LEVEL_NOTE = (
     "Trusted: Lean kernel + standard axioms; the correspondence harness (function-level diffs against dask and fsspec, "
-    "API-level read_bytes/read_text on in-memory and temp files); CPython float/str semantics; UTF-8 self-synchronisation; "
-    "compression, encodings other than UTF-8 and remote filesystems are not modelled.")
+    "API-level read_bytes/read_text on in-memory and temp files); CPython float/str semantics (str.split, str.encode, StringIO); "
+    "compression, encodings other than UTF-8 (validated at API level: ASCII-transparent ones pass, utf-16/32 with a blocksize is a known "
+    "finding) and remote filesystems are not modelled.")
